@@ -36,6 +36,27 @@ def check(it, tier):
     mode, cfg = it
     o = checks_a.check_vjp(cfg, tier) if mode == "vjp" else checks_a.check_jvp(cfg, tier)
     o.key = item_key(it)
+    if o.status == "raises":
+        # C11 promises the gradient for every index expression NumPy accepts, in every mix with dense uses: a raise is
+        # not an acceptable outcome here (unlike C01).  Confirm on float64 that NumPy evaluates it and autograd raises.
+        import random
+
+        env = checks_a._Default({}, random.Random(1))
+        try:
+            cfg.call(enga.onp_module(), *cfg.float_args(env))
+            numpy_ok = True
+        except Exception:
+            numpy_ok = False
+        if numpy_ok:
+            try:
+                (checks_a.float_vjp if mode == "vjp" else checks_a.float_jvp)(cfg, env)
+                raised = None
+            except Exception as e:
+                raised = "%s: %s" % (type(e).__name__, e)
+            if raised:
+                o.status = "violation"
+                o.detail = "autograd raises (%s) for an indexing program NumPy evaluates; %s" % (raised[:160], o.detail)
+                o.cex = {"env": {}, "mode": mode}
     return o
 
 
